@@ -16,7 +16,7 @@ from dsim.world import World, apply_faults
 ID = 'C12'
 LEVEL = 'exploration'
 CLASSES = [('skew', 1)]
-TIERS = {'quick': {'runs': 8000}}
+TIERS = {'quick': {}}
 RULE = ('seeded well-formed files (writer or foreign) extended by a newer '
         'producer with 1-4 unknown options per affected header (keys from '
         'the key grammar incl. look-alikes of known keys such as length2 / '
